@@ -135,6 +135,7 @@ func (h *H) Do(line string) {
 		c := EnvCfg{Cap: atoi(m["cap"]), ShMax: atoi(m["shmax"]), Per: atoi(m["per"]), Last: atoi(m["last"]), MinFee: atoi(m["minfee"]),
 			MaxRate: atoi(m["maxrate"]), Level: m["level"] == "1", NoExec: m["noexec"] == "1", Height: atoi(m["h"]), BlkTime: atoi(m["bt"]), Now: atoi(m["now"])}
 		h.E = NewEnv(c)
+		h.Reg.ResetDefs()
 		h.hist = append(h.hist, line)
 		h.collide = map[string]bool{}
 		maxfee := h.E.CCfg.GetMaxTxFee(c.Height + 1)
